@@ -119,13 +119,19 @@ def start_zygote():
             _serve(path)
         finally:
             os._exit(0)
-    for _ in range(600):
+    # generous: the zygote pre-imports every rule and dialect, which takes a few seconds on an idle machine and
+    # minutes on a loaded one; give up early only if the zygote process itself has died
+    for _ in range(12000):
         if os.path.exists(path):
             break
+        try:
+            if os.waitpid(pid, os.WNOHANG)[0] == pid:
+                break
+        except ChildProcessError:
+            break
         time.sleep(0.05)
-    else:
-        print("BROKEN-HARNESS: zygote did not start")
-        sys.exit(2)
+    if not os.path.exists(path):
+        raise RuntimeError("BROKEN-HARNESS: zygote did not start")
     os.environ[_ENV] = path
     _OWN["pid"] = os.getpid()
     _OWN["path"] = path
